@@ -146,3 +146,63 @@ Fixpoint handle_all (decodes : list N -> bool) (tb : table) (fs : list fragment)
       let '(tb2, o2) := handle_all decodes tb1 fs in
       (tb2, o1 ++ o2)
   end.
+
+(* ---- connector: the shared outgoing queue ---------------------------------------------- *)
+(* Connector.fragmentOut is ONE bounded FIFO (capacity 64).  Two producers write to it, both with a
+   blocking channel send: Connector.Send (the fragments of the node's own transmission, [BqOwn]) and
+   the deferred failure report of handleIncomingFragment ([BqFail]); handlerWrite empties it into
+   the modem ([BqPop]).  A producer whose send would exceed the capacity is not enabled (it blocks);
+   nothing is ever discarded. *)
+Inductive bbcq_ev := BqOwn | BqFail | BqPop.
+
+Record bbcq_state := { bq_own : list fragment;      (* own fragments not yet queued, in order *)
+                       bq_fail : list fragment;     (* failure fragments not yet queued, in order *)
+                       bq_queue : list fragment;    (* fragmentOut *)
+                       bq_sent : list fragment }.   (* handed to Modem.Send, in order *)
+
+Definition bbcq_init (own fails : list fragment) : bbcq_state :=
+  {| bq_own := own; bq_fail := fails; bq_queue := []; bq_sent := [] |}.
+
+Definition bbcq_step (cap : nat) (s : bbcq_state) (e : bbcq_ev) : option bbcq_state :=
+  match e with
+  | BqOwn =>
+      match bq_own s with
+      | f :: r => if Nat.ltb (length (bq_queue s)) cap
+                  then Some {| bq_own := r; bq_fail := bq_fail s; bq_queue := bq_queue s ++ [f]; bq_sent := bq_sent s |}
+                  else None
+      | [] => None
+      end
+  | BqFail =>
+      match bq_fail s with
+      | f :: r => if Nat.ltb (length (bq_queue s)) cap
+                  then Some {| bq_own := bq_own s; bq_fail := r; bq_queue := bq_queue s ++ [f]; bq_sent := bq_sent s |}
+                  else None
+      | [] => None
+      end
+  | BqPop =>
+      match bq_queue s with
+      | f :: r => Some {| bq_own := bq_own s; bq_fail := bq_fail s; bq_queue := r; bq_sent := bq_sent s ++ [f] |}
+      | [] => None
+      end
+  end.
+
+Fixpoint bbcq_run (cap : nat) (s : bbcq_state) (evs : list bbcq_ev) : option bbcq_state :=
+  match evs with
+  | [] => Some s
+  | e :: evs => match bbcq_step cap s e with Some s' => bbcq_run cap s' evs | None => None end
+  end.
+
+Definition bbcq_done (s : bbcq_state) : bool :=
+  match bq_own s, bq_fail s, bq_queue s with [], [], [] => true | _, _, _ => false end.
+
+Fixpoint bbc_frags_eqb (a b : list fragment) : bool :=
+  match a, b with
+  | [], [] => true
+  | x :: a, y :: b => fragment_eqb x y && bbc_frags_eqb a b
+  | _, _ => false
+  end.
+
+(* what a modem must have seen once everything has drained: a loss-free, order-preserving merge of
+   the own fragments and the failure fragments (which is which is told by the fail bit) *)
+Definition bbcq_sent_ok (own fails sent : list fragment) : bool :=
+  bbc_frags_eqb (filter (fun f => negb (f_fail f)) sent) own && bbc_frags_eqb (filter f_fail sent) fails.
